@@ -1,7 +1,7 @@
 (* Extract.v — extraction of the executable models to OCaml (ExtrOcamlBasic only: bool, option,
    unit, list, prod, sumbool mapped to OCaml's own; Z/N/positive stay extracted inductives). *)
 From Coq Require Extraction ExtrOcamlBasic.
-From Arsenal Require Import Util Gran Tlsf Linear.
+From Arsenal Require Import Util Gran Tlsf Linear LinearSpec.
 Extraction Language OCaml.
 Separate Extraction Util.align_up Util.align_down Gran.gran_init Tlsf.tlsf_init Tlsf.step Tlsf.regions
   Tlsf.allocation_count Tlsf.sum_free_size Tlsf.is_empty Tlsf.free_regions_count Tlsf.validate
@@ -11,4 +11,5 @@ Separate Extraction Util.align_up Util.align_down Gran.gran_init Tlsf.tlsf_init 
   Linear.linear_init Linear.step Linear.allocation_count Linear.sum_free_size Linear.is_empty
   Linear.validate Linear.visit_regions Linear.add_statistics Linear.add_detailed_statistics
   Linear.get_user_data Linear.set_user_data Linear.may_have_free Linear.allocation_offset
-  Linear.first Linear.second.
+  Linear.first Linear.second
+  LinearSpec.spec_init LinearSpec.spec_step LinearSpec.spec_items LinearSpec.free_bytes.
